@@ -69,6 +69,9 @@ enum Kind {
     Extra,
     /// right source and ID, letters of the first question name case-flipped (bit i = i-th letter)
     Flip(u16),
+    /// right source and ID, the asked question twice: once exactly as sent and once with the
+    /// letters of its name case-flipped; `true` = the flipped copy comes first
+    ExactAndFlipped(u16, bool),
     /// right source and ID, empty question section
     EmptyQ,
     /// arbitrary octets from the right source
@@ -95,6 +98,8 @@ impl Kind {
             Kind::Foreign(_) => "foreign-question",
             Kind::Extra => "extra-question",
             Kind::Flip(_) => "flipped-case",
+            Kind::ExactAndFlipped(_, false) => "exact-then-flipped-case",
+            Kind::ExactAndFlipped(_, true) => "flipped-case-then-exact",
             Kind::EmptyQ => "empty-question",
             Kind::Garbage(_) => "garbage",
             Kind::GarbageId(_) => "garbage-right-id",
@@ -250,6 +255,19 @@ fn build_dgram(kind: &Kind, sent: &[u8], server: SocketAddr, sock: usize, idx: u
             }
             let o = fq.first().map(|q| q.name.clone()).unwrap_or_default();
             (server, w::build(hdr.id, flags, &fq, &ans(&o), &[], &[]))
+        }
+        Kind::ExactAndFlipped(mask, flipped_first) => {
+            let mut fq = qs.clone();
+            if let Some(q) = qs.first() {
+                let mut f = q.clone();
+                f.name = flip_letters(&q.name, if *mask == 0 { 1 } else { *mask });
+                if *flipped_first {
+                    fq.insert(0, f);
+                } else {
+                    fq.push(f);
+                }
+            }
+            (server, w::build(hdr.id, flags, &fq, &ans(&owner), &[], &[]))
         }
         Kind::EmptyQ => (server, w::build(hdr.id, flags, &[], &ans(&owner), &[], &[])),
         Kind::Garbage(b) => (server, b.clone()),
@@ -552,7 +570,7 @@ fn run_udp(c: &UdpCase, rec: &mut Rec) -> CaseResult {
                 Kind::WrongPort => "udp-accepted-wrong-source-port",
                 Kind::WrongId(_) => "udp-accepted-wrong-id",
                 Kind::Foreign(_) | Kind::Extra => "udp-accepted-unasked-question",
-                Kind::Flip(_) => "udp-accepted-case-mismatch",
+                Kind::Flip(_) | Kind::ExactAndFlipped(..) => "udp-accepted-case-mismatch",
                 _ => "udp-accepted-non-matching",
             };
             vfail!(
@@ -647,6 +665,7 @@ fn kind_strategy() -> impl Strategy<Value = Kind> {
         2 => (0u8..3).prop_map(Kind::Foreign),
         2 => Just(Kind::Extra),
         3 => (1u16..=u16::MAX).prop_map(Kind::Flip),
+        2 => ((1u16..=u16::MAX), any::<bool>()).prop_map(|(m, f)| Kind::ExactAndFlipped(m, f)),
         2 => Just(Kind::EmptyQ),
         1 => bytes(0..40).prop_map(Kind::Garbage),
         1 => bytes(0..40).prop_map(Kind::GarbageId),
@@ -1414,7 +1433,7 @@ pub fn check() -> Option<Check> {
     Some(Check {
         id: "C16",
         level: "exploration",
-        rule: "UDP: real UdpClientStream on the simulated runtime; per transmission a scripted arrival list over {genuine, wrong IP, wrong port, wrong ID, foreign/extra question, flipped case, empty question, garbage, truncated, not-a-response, v4-mapped source} built from the octets hickory sent; every sequence of <= 4 datagrams over the nine named kinds enumerated (x 0x20 on/off x two spacings), longer and multi-transmission schedules sampled; non-trivial = distinct schedule in which at least one forged datagram precedes an acceptable one on its socket. Stream: real DnsMultiplexer over a scripted DnsClientStream, op histories (send, deliver pending/unknown/duplicate/cut, garbage, advance, drop receiver, close/error, poll, drain) against an ID-routing model; non-trivial = >= 2 requests in flight with out-of-order or duplicated delivery.",
+        rule: "UDP: real UdpClientStream on the simulated runtime; per transmission a scripted arrival list over {genuine, wrong IP, wrong port, wrong ID, foreign/extra question, flipped case, the asked question twice (exact and case-flipped, either order), empty question, garbage, truncated, not-a-response, v4-mapped source} built from the octets hickory sent; every sequence of <= 4 datagrams over the nine named kinds enumerated (x 0x20 on/off x two spacings), longer and multi-transmission schedules sampled; non-trivial = distinct schedule in which at least one forged datagram precedes an acceptable one on its socket. Stream: real DnsMultiplexer over a scripted DnsClientStream, op histories (send, deliver pending/unknown/duplicate/cut, garbage, advance, drop receiver, close/error, poll, drain) against an ID-routing model; non-trivial = >= 2 requests in flight with out-of-order or duplicated delivery.",
         assumptions: vec![
             "source-address comparison treats an IPv4-mapped IPv6 source as the IPv4 host (documented upstream, issue 2081)",
             "an empty question section is a subset of the asked questions (statement: 'names only questions that were asked')",
